@@ -51,4 +51,12 @@ def SSE2Cfg.field (c : SSE2Cfg) : String → Int
 def DP17Cfg.field (c : DP17Cfg) : String → Int
   | "param_lambda" => c.lambda | _ => 0
 
+
+/-! the envelope of an encrypted database: `HEADER ‖ pickle.dumps(parts)`; `deserialize` refuses another header and unpickles the
+    rest.  `pickle` is an abstract codec (`dumps`, `loads`); what is modelled is the envelope around it. -/
+def edbSer (hdr payload : Bytes) : Bytes := hdr ++ payload
+
+def edbDeser (hdr x : Bytes) : Except Err Bytes :=
+  if x.take hdr.length == hdr then .ok (x.drop hdr.length) else .error .valueError
+
 end SSEPy.Sch
